@@ -29,6 +29,12 @@ def gen_cases(rng, tier, corr, stats):
                         continue
                     pw, salt = rnd_bytes(rng, rng.choice([0, 1, 8, 40, 63, 64, 65, 70])), rnd_bytes(rng, rng.choice([0, 8, 16, 33, 64]))
                     corr.one("PB %s %s %s %d %d" % (kind, hx(pw), hx(salt), c, n)); stats["ops"]["PBKDF2-" + kind] += 1; stats["outlen"].append(n)
+        # iteration counts of 2^32 and more (unsigned long is 64 bits here): the call must still be iterating after 1.5 s, and a count
+        # that is small must be done by then (control)
+        for kind in ("xof", "hmac"):
+            for c in (2 ** 32, 2 ** 32 + 3, 2 ** 33 + 1, 2 ** 63 + 2, 3):
+                corr.one("PBT %s %s %s %d %d %d" % (kind, hx(rnd_bytes(rng, 8)), hx(rnd_bytes(rng, 8)), c, rng.choice([16, 32, 40]), 1500))
+                stats["ops"]["PBKDF2-huge-count" if c > 3 else "PBKDF2-huge-count-control"] += 1
         for L in (63, 64, 65, 128):
             corr.one("PB hmac %s %s %d %d" % (hx(rnd_bytes(rng, L)), hx(rnd_bytes(rng, 8)), rng.choice([1, 2, 3]), rng.choice([16, 33])))
             corr.one("PB hmac %s %s %d %d" % (hx(rnd_bytes(rng, 9)), hx(rnd_bytes(rng, L)), 1, 32))
@@ -103,7 +109,7 @@ def run(res, tier, seed, replay=None):
         "input_distribution": {"ops": dict(stats["ops"]), "outlen": diffrun.histogram(stats["outlen"], (0, 1, 32, 64, 100, 8160, 9000))},
     })
     res.assumptions += ["Spec/Mac.v transcribes RFC 5869, RFC 8018 and the library's KDF document; HMAC spec validated on the KAT files (C04)",
-                        "PBKDF2 block index truncated to 32 bits and iteration counts above 2^31 are not exercised",
+                        "PBKDF2 iteration counts of 2^32 and more are only observed not to return within 1.5 s (a truncated count returns at once); their output is not computed",
                         "Model/Macm.v mirrors the C (differential run)"]
     res.cov["wall_total"] = round(time.time() - t0, 1)
     return "proof"
